@@ -28,6 +28,8 @@ fn probe() -> Fingerprint {
     let ids: Vec<usize> = (0..64usize).into_par_iter().map(|_| rayon::current_thread_index().unwrap_or(999)).collect();
     f.seq("leaf_workers", ids);
     f.text("envvar", &std::env::var("RAYON_NUM_THREADS").unwrap_or_default());
+    // a name nobody has heard of: every variable the code asks for is a seam
+    f.text("envvar_unknown_name", &format!("{:?}|{:?}", std::env::var("LINFA_SIM_PROBE_A"), std::env::var("SOME_OTHER_DEFAULT_B")));
     f.one("available_parallelism", std::thread::available_parallelism().map(|n| n.get()).unwrap_or(0));
     // combinators whose RESULT depends on shared state (preemption points in the vendored rayon)
     let order: Vec<u32> = (0..96u32).par_bridge().collect();
@@ -114,13 +116,17 @@ fn run_pinned() -> i32 {
             fail(&format!("entropy seam not live: `{n}` did not change with the entropy seed"));
         }
     }
-    for n in ["parsum", "clock", "leaf_workers", "par_bridge_order", "find_any", "envvar", "available_parallelism"] {
+    for n in ["parsum", "clock", "leaf_workers", "par_bridge_order", "find_any", "envvar", "envvar_unknown_name", "available_parallelism"] {
         if field(&base, n) != field(&ee, n) {
             fail(&format!("`{n}` changed with the entropy seed alone"));
         }
     }
     // environment-variable and CPU-count dimensions live
     let ev = run_sim(&Env { envvars_seed: 99, ..Env::reference() }, probe).results.unwrap().remove(0);
+    let ev2 = run_sim(&Env { envvars_seed: 12345, ..Env::reference() }, probe).results.unwrap().remove(0);
+    if field(&base, "envvar_unknown_name") == field(&ev, "envvar_unknown_name") && field(&base, "envvar_unknown_name") == field(&ev2, "envvar_unknown_name") {
+        fail("environment seam not live for arbitrary variable names (getenv interposition)");
+    }
     if field(&base, "envvar") == field(&ev, "envvar") || field(&base, "hashorder") != field(&ev, "hashorder") {
         fail("environment-variable dimension not live (or leaking into other seams)");
     }
